@@ -17,6 +17,10 @@ var commonAssumptions = []string{
 }
 
 var propMeta = map[string]PropMeta{
+	"C14": {
+		NotCovered: "Equality of the JSON-RPC results themselves is reduced to 'the same manager entry point is invoked with the same request and its result is wrapped the same way'; order of listed items and error wording are outside the property; the stdio client's re-marshalling of results is encoding/json's behaviour.",
+		Assumptions: append([]string{"a transport returns a non-nil raw message when it returns no error (checked for the concrete transports under C08)"}, commonAssumptions...),
+	},
 	"C13": {
 		NotCovered: "The legacy SSE server's handleMessage/handleSSE and the prompt/resource list filters follow the same pattern and are not yet under contract; what user-supplied context functions, filters and handlers do with the context; true concurrency (the frame argument: request paths cannot write configuration fields, so nothing request-derived can be parked where another request reads it).",
 		Assumptions: append([]string{"context.WithValue/WithCancel/WithTimeout and internal/context.WithoutCancel derive a context whose Value agrees with the parent except for the added key", "HTTP context functions are deterministic functions of (context, request)"}, commonAssumptions...),
